@@ -722,3 +722,5 @@ PROPS["C04"]["rule"] += " The own RA handed to the inconsistency hook must be th
 PROPS["C18"]["rule"] += " Wire-image part: a mutated image that still parses as an RA is judged on every monitor series (flags, default-route expiry, per-prefix flags and expiries at a fixed receipt time) against the same model as the message sequences; options whose prefix has host bits set or an impossible length are left out."
 
 PROPS["C10"]["rule"] += " Wiring part: for every mode vector of up to 5 interfaces (and 200 / 20 000 random ones of up to 130) every advertiser and monitor BuildTasks returns holds a link-state subscription of its own."
+
+PROPS["C17"]["rule"] += " /debug/pprof/cmdline and /debug/pprof/symbol must be gated exactly as the index is."
